@@ -188,14 +188,23 @@ class World:
             return
         # segment = frames after the previous send frame up to this one
         seg = []
-        late = []
+        start = 0
         for idx in range(len(self.frames) - 2, -1, -1):
-            f = self.frames[idx]
-            if f[0].startswith("send"):
+            if self.frames[idx][0].startswith("send"):
+                start = idx + 1
                 break
-            seg.append(f)
-            if f[1] is not None and f[1] != owner and self.pkts[f[1]].cancelled and idx >= getattr(self.pkts[f[1]], "cancel_index", 1 << 30):
-                late.append(f)      # issued AFTER its request had been cancelled (a command that was already on the wire then is not)
+        seg_idx = list(range(start, len(self.frames) - 1))
+        seg = [self.frames[i] for i in reversed(seg_idx)]
+        # frames a CANCELLED request issued after its cancellation (a command already on the wire at that moment is not one) and after this
+        # request's own set-up had begun: interleaved.  (A set-up that is allowed to finish before the next request starts would not be.)
+        late = []
+        own_seen = False
+        for i in seg_idx:
+            f = self.frames[i]
+            if f[1] == owner:
+                own_seen = True
+            elif own_seen and f[1] is not None and self.pkts[f[1]].cancelled and i >= getattr(self.pkts[f[1]], "cancel_index", 1 << 30):
+                late.append(f)
         foreign = [f for f in seg if f[1] is not None and f[1] != owner and not self.pkts[f[1]].cancelled] + late
         if foreign:
             self.viol.append(f"set-up frames of another request ({[f[0] for f in foreign]}) sit between this request's set-up and its {name}")
